@@ -48,9 +48,65 @@ From WV Require Import Gen.GcSkeleton Proofs.GcPinned.
 Theorem c06_source_skeleton : used_new_skeleton = expected_used_new /\ used_visitor_skeleton = expected_used_visitor /\ gc_run_skeleton = expected_gc_run.
 Proof. exact used_skeleton_pinned. Qed.
 
+(* what the pass keeps it keeps UNCHANGED (nothing is altered, only removed): in every arena, for kept functions (kind, body,
+   arguments, type, name), for everything a kept entity refers to, for the targets of exports and start: the part of the
+   module reachable from the roots is identical before and after the pass *)
+From WV Require Import Model.ParseM Model.EmitM Proofs.Totality Proofs.Switches.
+Theorem c06_kept_entities_unchanged :
+  forall m m' : wir,
+         gc m = Ok m' ->
+         (forall (id : N) (v : mfunc), aget (m_funcs m') id = Some v -> aget (m_funcs m) id = Some v) /\
+         (forall (id : N) (v : mtable), aget (m_tables m') id = Some v -> aget (m_tables m) id = Some v) /\
+         (forall (id : N) (v : mglobal), aget (m_globals m') id = Some v -> aget (m_globals m) id = Some v) /\
+         (forall (id : N) (v : mmem), aget (m_memories m') id = Some v -> aget (m_memories m) id = Some v) /\
+         (forall (id : N) (v : mdata), aget (m_data m') id = Some v -> aget (m_data m) id = Some v) /\
+         (forall (id : N) (v : melem), aget (m_elements m') id = Some v -> aget (m_elements m) id = Some v) /\
+         (forall (id : N) (v : mimport), aget (m_imports m') id = Some v -> aget (m_imports m) id = Some v) /\
+         (forall (id : N) (t : mtype), types_get m' id = Some t -> types_get m id = Some t) /\
+         m_locals m' = m_locals m.
+Proof. exact gc_kept_unchanged. Qed.
+
+Theorem c06_kept_function_unchanged :
+  forall (m m' : wir) (id : N) (f : mfunc),
+         gc m = Ok m' ->
+         aget (m_funcs m') id = Some f ->
+         aget (m_funcs m) id = Some f /\
+         types_get m' (func_ty f) = types_get m (func_ty f) /\ m_locals m' = m_locals m.
+Proof. exact gc_kept_function. Qed.
+
+Theorem c06_reachable_submodule_identical :
+  forall m m' : wir,
+         gc m = Ok m' ->
+         exists u U : list ent,
+           used m = Ok u /\
+           incl U u /\
+           (forall x : ent, In x u -> fst x <> S_memory -> In x U) /\
+           (forall x : ent, In x u -> same_at m m' x) /\
+           (forall x : ent,
+            In x U ->
+            exists ys : list ent,
+              succ m x = Ok ys /\
+              succ m' x = Ok ys /\ (forall y : ent, In y ys -> In y U /\ In y u /\ same_at m m' y)).
+Proof. exact gc_reachable_closed_submodule. Qed.
+
+Theorem c06_exports_and_start_same_targets :
+  forall m m' : wir,
+         gc m = Ok m' ->
+         m_exports m' = m_exports m /\
+         m_start m' = m_start m /\
+         (forall (id : N) (e : mexport),
+          aget (m_exports m') id = Some e -> item_same m m' (ex_kind e) (ex_item e)) /\
+         (forall f : N, m_start m' = Some f -> item_same m m' EK_Func f).
+Proof. exact gc_exports_start_same_targets. Qed.
+
+
 Print Assumptions c06_reachable_kept.
 Print Assumptions c06_closed.
 Print Assumptions c06_roots_kept.
 Print Assumptions c06_frame.
 Print Assumptions c06_only_unused_deleted.
 Print Assumptions c06_source_skeleton.
+Print Assumptions c06_kept_entities_unchanged.
+Print Assumptions c06_kept_function_unchanged.
+Print Assumptions c06_reachable_submodule_identical.
+Print Assumptions c06_exports_and_start_same_targets.
